@@ -28,7 +28,7 @@ CONFIG = {
     'quick': {'shards': 16, 'budget_s': 200, 'n_mols': 900, 'n_cut': 8, 'n_table_pairs': 20000,
               'floors': {'evaluations': 3000, 'distinct_nontrivial': 500, 'pairs.compared': 3000, 'pairs.with-matches': 600,
                          'layout.elements': 118, 'layout.ring-sizes': 40, 'pyxsan.loads': 200000,
-                         'queries.rings-with-coordinate-bonds': 120}},
+                         'queries.rings-with-coordinate-bonds': 120, 'queries.ring-closures-on-cages': 400}},
     'thorough': {'shards': 16, 'budget_s': 2400, 'n_mols': 4200, 'n_cut': 30, 'n_table_pairs': 300000,
                  'floors': {'evaluations': 60000, 'distinct_nontrivial': 8000, 'pairs.compared': 60000,
                             'pairs.with-matches': 10000, 'layout.elements': 118, 'layout.ring-sizes': 60,
@@ -36,6 +36,11 @@ CONFIG = {
 }
 
 
+RING_QUERIES = ['C1CC1', 'C1CCC1', 'C1CCCC1', 'C1CCCCC1', 'CC1CC1', 'C1CC1C', 'C1CCC2CC2C1', 'C1CC2CC2C1', 'C1CC2CCC1C2', 'C1C2CC1C2', 'C1CC12CC2', 'C1=CC=CC=C1',
+                'C1CC2CC12', 'CC1CCC1', 'C1CCC2CCCCC2C1', 'C12CC1C2']
+RING_TARGETS = ['C1CC1C2CC2', 'C12C3C4C1C5C2C3C45', 'C1C2CC1C2', 'C1CC23CCC2(C1)CC3', 'C1CC2CCC1C2', 'C1C2CC3CC1CC(C2)C3', 'C1CC2(CC2)C12CC2', 'C1CC1C1CCC1',
+                'C12C3C1C23', 'C1C2C3C1C23', 'C1CC2CC2C1', 'C1CC2C3CC3C2C1', 'C1CCC2(C1)CC2', 'C1C2C1C1CC21', 'c1ccc2c(c1)C1CC21', 'C1CC2CC3CC1C23',
+                'C1CC11CC1', 'C1C2CC12', 'C1CC2C(C1)C1CC21', 'C1C2C3CC1C1C(CCCC1C3)C2']
 CHELATES = ['[Cu]1~NCCN~1', 'N1CCN~[Cu]~1', 'C1N~[Cu]~NC1', 'Cl[Pt]1(Cl)~NCCN~1', 'C1CO~[Zn]~O1', 'O=C1O~[Cu]~OC1=O', '[Cu]1~NCCN1',
             'c1ccn2~[Pd]~n3ccccc3-c2c1', '[Fe]1~OC(C)=CC(C)=O~1', 'C1CN~[Ni]2(~N1)~NCCN~2', '[Co]1~NCCCN~1', 'C1=CC=C~[Fe]~1',
             'N1CC[NH2]~[Cu]1', '[Mg]1~OCCO~1.O', 'C1CS~[Hg]~S1']
@@ -378,6 +383,23 @@ def worker(ctx):
                 ctx.count('queries.rings-with-coordinate-bonds')
                 pair(ctx, q, m, name_of(q), s, rng)
                 pair(ctx, q, base, name_of(q), s, rng)
+    # ring-closure queries against small fused / caged / spiro ring systems (every query on every target): closure bookkeeping of the
+    # compiled matcher is exercised where several matched neighbours are not the closure partner
+    rq = [smarts(x) for x in RING_QUERIES]
+    for k, ts in enumerate(RING_TARGETS):
+        if not ctx.mine(k):
+            continue
+        try:
+            t = smiles(ts)
+            t.kekule()
+            t.thiele()
+        except Exception:
+            continue
+        for j in range(2):
+            tt = t if not j else T.redescribe(t, rng)[0]
+            for qs, q in zip(RING_QUERIES, rq):
+                ctx.count('queries.ring-closures-on-cages')
+                pair(ctx, q, tt, qs, ts, rng)
     # cut queries against their source and another molecule
     for s, m in mols:
         if ctx.out_of_time():
